@@ -310,7 +310,13 @@ func (f *Frame) execInstr(ns *nodeState, ins ssa.Instruction) {
 					}
 					if rhs := f.defRHS(x.Expr); rhs != nil {
 						if v := f.exprValue(ins.Block(), rhs); v != nil {
-							src = v
+							if _, have := ns.env[v]; have {
+								src = v
+							} else if _, isC := v.(*ssa.Const); isC {
+								src = v
+							}
+							// otherwise the debug reference precedes the instructions that compute the value: the
+							// definition is picked up at the first use or at the phi that carries the variable
 						}
 					}
 					_ = c
